@@ -24,10 +24,11 @@ CONFIG = {
              'path in a directory that does not exist yet) - each for build and for clean; oracle: if the call raised '
              'and no user function was entered, the tree incl. the cache file is bit-identical (bytes, mtime_ns, inode), '
              'the library issued no mutating file-system event outside the private temp dir and left nothing in it; '
-             'calls the library accepts (e.g. a flipped gzip MTIME byte) are counted, not judged - except truncations, other build names (incl. near misses of the stored name: empty, prefix, case, padding), wrong-typed arguments and a directory at the cache path: accepting those is a violation; a sample of the refused corruptions is repeated after the process has just read the valid file (a refused other-name call) with the corrupted file keeping the valid file\'s timestamp: the refusal must not depend on process history; evaluations = refused '
+             'calls the library accepts (e.g. a flipped gzip MTIME byte) are counted, not judged - except truncations, other build names (incl. near misses of the stored name: empty, prefix, case, padding), wrong-typed arguments and a directory at the cache path: accepting those is a violation; an accepted bit flip is checked against a reference reader (the gzip and json modules of the standard library): if that cannot read the file, accepting it is a violation; a sample of the refused corruptions is repeated after the process has just read the valid file (a refused other-name call) with the corrupted file keeping the valid file\'s timestamp: the refusal must not depend on process history; evaluations = refused '
              'calls judged; distinct_nontrivial = distinct (corruption class, API, exception class)'),
     'gates': ['refused', 'refused:build', 'refused:clean', 'class:truncate', 'class:bitflip', 'class:json_shape',
-              'class:wrong_type_arg', 'class:name_mismatch', 'class:cache_is_dir', 'accepted', 'primed_attempts'],
+              'class:wrong_type_arg', 'class:name_mismatch', 'class:cache_is_dir', 'accepted', 'primed_attempts',
+              'accepted_flips_reference_checked', 'write_primed_flips'],
 }
 
 
@@ -99,7 +100,7 @@ def snapshot_all(w):
     return env.snapshot(w.sb), sorted(os.listdir(w.tmp))
 
 
-def attempt(sh, w, cls, label, api, call, program):
+def attempt(sh, w, cls, label, api, call, program, data=None):
     """run one possibly-refused call under the monitors and judge it"""
     entered = []
 
@@ -129,6 +130,24 @@ def attempt(sh, w, cls, label, api, call, program):
                          {'kind': 'c15', 'class': cls, 'label': label, 'api': api, 'program': program,
                           'steps': list(w.steps), 'cache_rel': w.cache_rel})
             return 'violation'
+        if data is not None and cls == 'bitflip':
+            # reference reader: a file that Python's own gzip module cannot decompress (bad magic, damaged
+            # deflate stream, CRC or length mismatch) or whose text is not JSON is "unreadable / not gzip /
+            # not JSON": accepting it is the violation.  (A flip the reference reader does not notice -
+            # e.g. in the gzip MTIME field - is legitimately accepted.)
+            try:
+                json.loads(gzip.decompress(data).decode('utf-8'))
+                readable = True
+            except Exception:
+                readable = False
+            sh.count('accepted_flips_reference_checked')
+            if not readable:
+                sh.evaluations += 1
+                sh.violation('unreadable_cache_not_refused|%s|%s' % (api, label.split('|')[0]),
+                             {'label': label, 'entered': bool(entered)},
+                             {'kind': 'c15', 'class': cls, 'label': label, 'api': api, 'program': program,
+                              'steps': list(w.steps), 'cache_rel': w.cache_rel})
+                return 'violation'
         return 'accepted'
     sh.evaluations += 1
     sh.count('refused')
@@ -200,7 +219,36 @@ def run_shard(sh):
                 with open(cache, 'wb') as f:
                     f.write(good)
                 os.utime(cache, ns=(good_mtime, good_mtime))
+            # write-primed flips: the very first call after THIS process has written the cache file sees a
+            # corruption that keeps size, timestamp and gzip trailer (whatever the process remembers about
+            # the file it wrote must not vouch for the bytes on disk)
+            if sr.committed and len(good) > 30:
+                for api in ('build', 'clean'):
+                    o = rng.randrange(0, len(good) - 8)
+                    b = bytearray(good)
+                    b[o] ^= 1 << rng.randrange(8)
+                    tokp = w.save()
+                    with open(cache, 'wb') as f:
+                        f.write(bytes(b))
+                    os.utime(cache, ns=(good_mtime, good_mtime))
+                    sh.count('write_primed_flips')
+                    lab = 'flip@%s|write-primed' % ('header' if o < 10 else 'body')
+                    if api == 'build':
+                        attempt(sh, w, 'bitflip', lab, api, lambda root: FileBuilder.build(cache, name, root),
+                                program, bytes(b))
+                    else:
+                        attempt(sh, w, 'bitflip', lab, api, lambda root: FileBuilder.clean(cache, name), program, bytes(b))
+                    w.restore(tokp)
+                    if api == 'build':
+                        # write the cache again (an unchanged rebuild) so that the second probe is write-primed too
+                        sr = w.build(program, program['roots'][ri], {}, label=ri)
+                        if sr.divs or not sr.committed:
+                            break
+                        with open(w.cache, 'rb') as f:
+                            good = f.read()
+                        good_mtime = os.stat(w.cache).st_mtime_ns
             items = list(corruptions(rng, good, sh.tier))
+            rng.shuffle(items)
             if sh.tier == 'quick':
                 # every class in every case; bit flips and truncations subsampled
                 keep = [it for it in items if it[0] == 'json_shape']
@@ -216,9 +264,9 @@ def run_shard(sh):
                     st = env.CLOCK.next()
                     os.utime(cache, ns=(st, st))
                     if api == 'build':
-                        r = attempt(sh, w, cls, label, api, lambda root: FileBuilder.build(cache, name, root), program)
+                        r = attempt(sh, w, cls, label, api, lambda root: FileBuilder.build(cache, name, root), program, data)
                     else:
-                        r = attempt(sh, w, cls, label, api, lambda root: FileBuilder.clean(cache, name), program)
+                        r = attempt(sh, w, cls, label, api, lambda root: FileBuilder.clean(cache, name), program, data)
                     if r != 'refused':
                         # accepted (undefined territory) or violated: continue from a pristine copy
                         w.restore(tok, keep=True)
